@@ -20,6 +20,10 @@ use vx::prog::*;
 #[derive(Clone, Debug, PartialEq, Eq, Hash)]
 pub enum WOp {
     Send(u8),
+    /// `tx.send_modify(|x| *x = v)` (no receiver-count check)
+    SendModify(u8),
+    /// `tx.send_replace(v)` → the previous value
+    SendReplace(u8),
     /// `*tx.borrow()`
     TxBorrow,
     /// `tx.is_closed()`
@@ -29,12 +33,21 @@ pub enum WOp {
     DropTx,
     /// `rx.changed().await`
     Changed,
+    /// `*rx.wait_for(|x| *x == v).await?`
+    WaitFor(u8),
     /// `*rx.borrow_and_update()`
     BorrowAndUpdate,
     /// `*rx.borrow()`
     Borrow,
     HasChanged,
     DropRx,
+    /// `time::timeout(1s, rx.changed()).await`: `Ok` / `Err` / `Elapsed`
+    TimeoutChanged,
+    /// `time::trigger_timeouts(|_| true)` / `time::clear_triggers()`
+    TriggerAll,
+    ClearTriggers,
+    /// `task::yield_now().await`
+    Yield,
 }
 
 #[derive(Clone, Debug, PartialEq, Eq, Hash, PartialOrd, Ord)]
@@ -42,6 +55,7 @@ pub enum WRes {
     Unit,
     Ok,
     Err,
+    Elapsed,
     Val(u8),
     Bool(bool),
     Nothing,
@@ -80,6 +94,12 @@ pub struct WM {
     to_wake: Vec<(u8, u8, bool)>,
     /// value read by the borrow in progress
     tmp: Vec<Option<u8>>,
+    /// `wait_for` in progress has seen the channel closed (its local `closed` flag)
+    wfc: Vec<bool>,
+    /// `time`: a trigger is registered / the thread has a live timeout / which has expired
+    triggered: bool,
+    live: Vec<bool>,
+    expired: Vec<bool>,
 }
 
 pub struct WatchFam;
@@ -139,6 +159,8 @@ impl Family for WatchFam {
     const ASYNC: bool = true;
 
     fn make_objs(cfg: &WCfg, n: usize) -> WObjs {
+        // harness hygiene: the wrapper's trigger table is a std thread-local that survives executions
+        shuttle_tokio_impl_inner::time::clear_triggers();
         let (tx, rx) = watch::channel::<u8>(0);
         let mut txs: Vec<Option<watch::Sender<u8>>> = (0..n).map(|_| None).collect();
         let mut rxs: Vec<Option<watch::Receiver<u8>>> = (0..n).map(|_| None).collect();
@@ -169,6 +191,22 @@ impl Family for WatchFam {
                     } else {
                         WRes::Err
                     }
+                }
+            },
+            WOp::SendModify(v) => match take_tx(o, t) {
+                None => WRes::Nothing,
+                Some(h) => {
+                    h.send_modify(|x| *x = *v);
+                    o.tx.borrow_mut()[t] = Some(h);
+                    WRes::Unit
+                }
+            },
+            WOp::SendReplace(v) => match take_tx(o, t) {
+                None => WRes::Nothing,
+                Some(h) => {
+                    let old = h.send_replace(*v);
+                    o.tx.borrow_mut()[t] = Some(h);
+                    WRes::Val(old)
                 }
             },
             WOp::TxBorrow => match take_tx(o, t) {
@@ -237,7 +275,15 @@ impl Family for WatchFam {
                     WRes::Unit
                 }
             },
-            WOp::Changed | WOp::TxClosed => unreachable!("async operation in a synchronous context"),
+            WOp::TriggerAll => {
+                shuttle_tokio_impl_inner::time::trigger_timeouts(|_| true);
+                WRes::Unit
+            }
+            WOp::ClearTriggers => {
+                shuttle_tokio_impl_inner::time::clear_triggers();
+                WRes::Unit
+            }
+            WOp::Changed | WOp::WaitFor(_) | WOp::TxClosed | WOp::TimeoutChanged | WOp::Yield => unreachable!("async operation in a synchronous context"),
         }
     }
 
@@ -253,6 +299,40 @@ impl Family for WatchFam {
                             WRes::Ok
                         } else {
                             WRes::Err
+                        }
+                    }
+                },
+                WOp::TimeoutChanged => match take_rx(o, t) {
+                    None => WRes::Nothing,
+                    Some(mut h) => {
+                        let r = shuttle_tokio_impl_inner::time::timeout(std::time::Duration::from_secs(1), h.changed()).await;
+                        o.rx.borrow_mut()[t] = Some(h);
+                        match r {
+                            Ok(Ok(())) => WRes::Ok,
+                            Ok(Err(_)) => WRes::Err,
+                            Err(_) => WRes::Elapsed,
+                        }
+                    }
+                },
+                WOp::Yield => {
+                    shuttle_tokio_impl_inner::task::yield_now().await;
+                    WRes::Unit
+                }
+                WOp::WaitFor(v) => match take_rx(o, t) {
+                    None => WRes::Nothing,
+                    Some(mut h) => {
+                        // (a task cancelled in here drops the receiver it owns, like any tokio task)
+                        let r = {
+                            let w = *v;
+                            match h.wait_for(move |x| *x == w).await {
+                                Ok(r) => Some(*r),
+                                Err(_) => None,
+                            }
+                        };
+                        o.rx.borrow_mut()[t] = Some(h);
+                        match r {
+                            Some(x) => WRes::Val(x),
+                            None => WRes::Err,
                         }
                     }
                 },
@@ -272,8 +352,55 @@ impl Family for WatchFam {
     fn yields(_op: &WOp) -> Option<bool> {
         None
     }
-    fn m_abortable(_op: &WOp, _phase: u8) -> bool {
-        false
+    /// A task can be cancelled where it is suspended: registered for a notification inside
+    /// `changed()` / `wait_for()` / `closed()`.  Everything else (including the blocking read lock
+    /// inside `wait_for`) runs synchronously inside one poll.
+    fn m_abortable(op: &WOp, phase: u8) -> bool {
+        match op {
+            WOp::Changed | WOp::TxClosed | WOp::TimeoutChanged => phase == 1,
+            WOp::Yield => true,
+            WOp::WaitFor(_) => phase == 5,
+            _ => false,
+        }
+    }
+    /// The cancelled task's future owns the handle it was awaiting on (the interpreter moved it
+    /// in, as a tokio task owns its receiver): tokio documents `changed` / `wait_for` / `closed` as
+    /// cancel safe — the pending request simply goes away — and the handle is then dropped like by
+    /// `drop(rx)` / `drop(tx)`: the last receiver going away wakes `Sender::closed()`, the last
+    /// sender going away closes the channel and wakes every `changed()`.  Those wake-ups are
+    /// scheduling steps of the cancelled task (inside its destructor).
+    fn m_cancel_begin(m: &WM, t: usize, op: &WOp, _phase: u8) -> Option<Vec<MStep<WM, ()>>> {
+        let id = t as u8;
+        let mut n = m.clone();
+        match op {
+            WOp::Changed | WOp::WaitFor(_) | WOp::TimeoutChanged => {
+                n.rxw[t] = 0;
+                n.wfc[t] = false;
+                n.live[t] = false;
+                n.expired[t] = false;
+                n.rx_alive[t] = false;
+                if n.rx_count() == 0 {
+                    n.notify(id, false);
+                }
+            }
+            WOp::TxClosed => {
+                n.txw[t] = 0;
+                n.tx_alive[t] = false;
+                if !n.tx_alive.iter().any(|a| *a) {
+                    n.closed = true;
+                    n.notify(id, true);
+                }
+            }
+            _ => return None,
+        }
+        Some(vec![if n.pending(id) { MStep::Cont(n, 1) } else { MStep::Done(n, ()) }])
+    }
+    fn m_cancel_step(m: &WM, t: usize, _op: &WOp, _cphase: u8, _strict: bool) -> Vec<MStep<WM, ()>> {
+        let id = t as u8;
+        if !m.pending(id) {
+            return vec![MStep::Done(m.clone(), ())];
+        }
+        m.deliver(id).into_iter().map(|x| MStep::Cont(x, 1)).collect()
     }
     fn objects_of(_op: &WOp) -> Vec<u32> {
         vec![0xC40]
@@ -299,6 +426,10 @@ impl Family for WatchFam {
             txw: vec![0; n],
             to_wake: vec![],
             tmp: vec![None; n],
+            wfc: vec![false; n],
+            triggered: false,
+            live: vec![false; n],
+            expired: vec![false; n],
         }
     }
 
@@ -314,13 +445,14 @@ impl Family for WatchFam {
             n.deliver(id).into_iter().map(|x| MStep::Cont(x, ph)).collect()
         };
         match op {
-            WOp::Send(v) => {
+            WOp::Send(v) | WOp::SendModify(v) | WOp::SendReplace(v) => {
                 if !n.tx_alive[t] {
                     return vec![MStep::Done(n, WRes::Nothing)];
                 }
                 match phase {
                     0 => {
-                        if n.rx_count() == 0 {
+                        // only `send` looks at the number of receivers (and refuses without any)
+                        if matches!(op, WOp::Send(_)) && n.rx_count() == 0 {
                             return vec![MStep::Done(n, WRes::Err)];
                         }
                         vec![MStep::Cont(n, 1)]
@@ -329,6 +461,7 @@ impl Family for WatchFam {
                         let r = if phase == 1 { n.lock.arrive(id, MANY) } else { n.lock.complete(id) };
                         match r {
                             Some(Acq::Ok) => {
+                                n.tmp[t] = Some(n.value);
                                 n.value = *v;
                                 n.version += 1;
                                 vec![MStep::Cont(n, 3)]
@@ -351,7 +484,18 @@ impl Family for WatchFam {
                         n.notify(id, true);
                         vec![MStep::Cont(n, 5)]
                     }
-                    _ => finish(n, WRes::Ok, 5),
+                    _ => {
+                        if n.pending(id) {
+                            return finish(n, WRes::Ok, 5);
+                        }
+                        let old = n.tmp[t].take().expect("previous value");
+                        let r = match op {
+                            WOp::Send(_) => WRes::Ok,
+                            WOp::SendModify(_) => WRes::Unit,
+                            _ => WRes::Val(old),
+                        };
+                        vec![MStep::Done(n, r)]
+                    }
                 }
             }
             WOp::TxBorrow | WOp::Borrow | WOp::BorrowAndUpdate => {
@@ -444,6 +588,135 @@ impl Family for WatchFam {
                     vec![]
                 }
             }
+            // `Timeout::poll` looks at the expiry first, then polls `changed()`; with the expiry and a
+            // new value both there the wrapper says Elapsed (the value stays unseen), tokio's own
+            // `timeout` polls first and would say Ok — the contract-only relation accepts either.
+            // An expired timeout drops the pending `changed()` (cancel safe: nothing is marked seen).
+            WOp::TimeoutChanged => {
+                if !n.rx_alive[t] {
+                    return vec![MStep::Done(n, WRes::Nothing)];
+                }
+                if phase == 0 {
+                    if n.triggered {
+                        // born expired: `changed()` is never polled
+                        return vec![MStep::Done(n, WRes::Elapsed)];
+                    }
+                    n.live[t] = true;
+                    n.expired[t] = false;
+                }
+                let mut out = Vec::new();
+                if n.expired[t] {
+                    let mut e = n.clone();
+                    e.rxw[t] = 0;
+                    e.live[t] = false;
+                    e.expired[t] = false;
+                    out.push(MStep::Done(e, WRes::Elapsed));
+                    if strict {
+                        return out;
+                    }
+                }
+                if phase == 0 || n.rxw[t] == 3 || (!strict && n.rxw[t] == 2) {
+                    if n.version != n.seen[t] {
+                        n.seen[t] = n.version;
+                        n.rxw[t] = 0;
+                        n.live[t] = false;
+                        n.expired[t] = false;
+                        out.push(MStep::Done(n, WRes::Ok));
+                    } else if n.closed {
+                        n.rxw[t] = 0;
+                        n.live[t] = false;
+                        n.expired[t] = false;
+                        out.push(MStep::Done(n, WRes::Err));
+                    } else {
+                        n.rxw[t] = 1;
+                        out.push(MStep::Cont(n, 1));
+                    }
+                }
+                out
+            }
+            WOp::TriggerAll => {
+                n.triggered = true;
+                for i in 0..n.live.len() {
+                    if n.live[i] {
+                        n.expired[i] = true;
+                    }
+                }
+                vec![MStep::Done(n, WRes::Unit)]
+            }
+            WOp::ClearTriggers => {
+                n.triggered = false;
+                vec![MStep::Done(n, WRes::Unit)]
+            }
+            WOp::Yield => vec![MStep::Done(n, WRes::Unit)],
+            WOp::WaitFor(v) => {
+                if !n.rx_alive[t] {
+                    return vec![MStep::Done(n, WRes::Nothing)];
+                }
+                // after the lock has been given back (or a wake-up): `changed_impl`
+                let chk = |mut n: WM| -> Vec<MStep<WM, WRes>> {
+                    if n.version != n.seen[t] {
+                        n.seen[t] = n.version;
+                        n.rxw[t] = 0;
+                        vec![MStep::Cont(n, 0)]
+                    } else if n.closed {
+                        n.rxw[t] = 0;
+                        n.wfc[t] = true;
+                        vec![MStep::Cont(n, 0)]
+                    } else {
+                        n.rxw[t] = 1;
+                        vec![MStep::Cont(n, 5)]
+                    }
+                };
+                match phase {
+                    0 | 1 => {
+                        let r = if phase == 0 { n.lock.arrive(id, 1) } else { n.lock.complete(id) };
+                        match r {
+                            Some(Acq::Ok) => {
+                                // under the read lock: mark seen, evaluate the predicate (skipped
+                                // once closed and nothing new)
+                                let has_changed = n.version != n.seen[t];
+                                n.seen[t] = n.version;
+                                if (!n.wfc[t] || has_changed) && n.value == *v {
+                                    n.tmp[t] = Some(n.value);
+                                    vec![MStep::Cont(n, 2)]
+                                } else {
+                                    vec![MStep::Cont(n, 3)]
+                                }
+                            }
+                            Some(_) => unreachable!("the value lock is never closed"),
+                            None => {
+                                if phase == 0 {
+                                    vec![MStep::Cont(n, 1)]
+                                } else {
+                                    vec![]
+                                }
+                            }
+                        }
+                    }
+                    2 => {
+                        // the returned `Ref` is dropped by the caller
+                        n.lock.release(1);
+                        n.wfc[t] = false;
+                        let x = n.tmp[t].take().expect("value read");
+                        vec![MStep::Done(n, WRes::Val(x))]
+                    }
+                    3 => {
+                        n.lock.release(1);
+                        if n.wfc[t] {
+                            n.wfc[t] = false;
+                            return vec![MStep::Done(n, WRes::Err)];
+                        }
+                        chk(n)
+                    }
+                    _ => {
+                        if n.rxw[t] == 3 || (!strict && n.rxw[t] == 2) {
+                            chk(n)
+                        } else {
+                            vec![]
+                        }
+                    }
+                }
+            }
             WOp::HasChanged => {
                 if !n.rx_alive[t] {
                     return vec![MStep::Done(n, WRes::Nothing)];
@@ -510,6 +783,14 @@ fn assign_values(t: usize, s: &[WOp]) -> Vec<WOp> {
                 k += 1;
                 WOp::Send(10 * (t as u8 + 1) + k)
             }
+            WOp::SendModify(_) => {
+                k += 1;
+                WOp::SendModify(10 * (t as u8 + 1) + k)
+            }
+            WOp::SendReplace(_) => {
+                k += 1;
+                WOp::SendReplace(10 * (t as u8 + 1) + k)
+            }
             o => o.clone(),
         })
         .collect()
@@ -570,6 +851,128 @@ pub fn program_set(set: &str) -> Vec<Program<WatchFam>> {
                 continue;
             }
             out.push(Program::fork_join(WCfg { tx_threads: vec![1, 2], rx_threads: vec![0] }, b.clone(), vec![assign_values(1, a), assign_values(2, c)]));
+        }
+    }
+    // ---- send_modify / send_replace / wait_for (targeted: they share the machinery of send / changed)
+    let g = |v: &[WOp]| v.iter().cloned().map(GOp::Op).collect::<Vec<_>>();
+    for tx in [
+        vec![WOp::SendModify(11)],
+        vec![WOp::SendReplace(11)],
+        vec![WOp::SendReplace(11), WOp::SendModify(12)],
+        vec![WOp::Send(11), WOp::SendReplace(12)],
+        vec![WOp::SendModify(11), WOp::DropTx],
+    ] {
+        for rx in [
+            vec![WOp::Changed, WOp::Borrow],
+            vec![WOp::WaitFor(11)],
+            vec![WOp::WaitFor(12)],
+            vec![WOp::WaitFor(0)],
+            vec![WOp::Changed, WOp::WaitFor(12)],
+            vec![WOp::DropRx],
+            vec![WOp::BorrowAndUpdate, WOp::DropRx],
+        ] {
+            let two = tx.iter().filter(|o| !matches!(o, WOp::DropTx)).count() == 2;
+            if !thorough && two && rx.len() == 2 {
+                continue;
+            }
+            out.push(Program::fork_join(WCfg { tx_threads: vec![0], rx_threads: vec![1] }, tx.clone(), vec![rx.clone()]));
+            if thorough {
+                out.push(Program::fork_join(WCfg { tx_threads: vec![1], rx_threads: vec![2] }, vec![], vec![tx.clone(), rx.clone()]));
+            }
+        }
+    }
+    // ---- cancellation: a receiver task aborted inside changed() / wait_for() while a send / send_modify
+    // / send_replace / the drop of the sender is under way, a second receiver surviving: the survivor
+    // is still notified and sees the latest value, the victim's receiver is gone (receiver count,
+    // `closed()`), nothing of it is left behind
+    let victims: Vec<Vec<WOp>> = vec![vec![WOp::Changed], vec![WOp::WaitFor(99)], vec![WOp::Changed, WOp::Changed]];
+    let survivors: Vec<Vec<WOp>> = vec![vec![WOp::Changed, WOp::Borrow], vec![WOp::Changed, WOp::Changed, WOp::Borrow], vec![WOp::WaitFor(12)]];
+    let senders: Vec<Vec<WOp>> = vec![
+        vec![WOp::Send(11)],
+        vec![WOp::SendModify(11)],
+        vec![WOp::SendReplace(11)],
+        vec![WOp::DropTx],
+        vec![WOp::Send(11), WOp::Send(12)],
+        vec![WOp::Send(11), WOp::DropTx],
+        vec![WOp::SendReplace(11), WOp::SendModify(12)],
+    ];
+    for (vi, v) in victims.iter().enumerate() {
+        for (si, sv) in survivors.iter().enumerate() {
+            for (xi, tx) in senders.iter().enumerate() {
+                // (a) the sender is a task of its own: the abort can fall anywhere inside the send
+                // (quick: ~24 k executions for a send, 6 k for the drop; send_modify / send_replace
+                // share send's path and come under (b); a `wait_for` victim beside a second
+                // receiver costs > 100 k executions: thorough)
+                if thorough || (vi == 0 && si == 0 && (xi == 0 || xi == 3)) {
+                    let main = vec![GOp::Spawn(1), GOp::Spawn(2), GOp::Spawn(3), GOp::Abort(1), GOp::Join(1), GOp::Join(2), GOp::Join(3)];
+                    out.push(Program { cfg: WCfg { tx_threads: vec![3], rx_threads: vec![1, 2] }, threads: vec![main, g(v), g(sv), g(tx)] });
+                }
+                // (b) main sends, aborts, sends again
+                if thorough || (vi == 0 && si <= 1 && xi <= 2) {
+                    let mut main = vec![GOp::Spawn(1), GOp::Spawn(2)];
+                    main.extend(g(tx));
+                    main.push(GOp::Abort(1));
+                    main.push(GOp::Join(1));
+                    main.push(GOp::Op(WOp::Send(12)));
+                    main.push(GOp::Join(2));
+                    out.push(Program { cfg: WCfg { tx_threads: vec![0], rx_threads: vec![1, 2] }, threads: vec![main, g(v), g(sv)] });
+                }
+            }
+        }
+    }
+    // ---- cancellation by `time::timeout` + `trigger_timeouts`: a timed-out `changed()` marks nothing
+    // seen (`has_changed` / the next `changed()` still report the value), the other receiver is not
+    // disturbed.  No execution of these programs may fail (see fam_task.rs on the timeout table).
+    for r1 in [vec![WOp::TimeoutChanged], vec![WOp::TimeoutChanged, WOp::HasChanged], vec![WOp::TimeoutChanged, WOp::TimeoutChanged, WOp::Borrow]] {
+        for mid in [vec![WOp::Send(11)], vec![WOp::SendModify(11)], vec![WOp::DropTx], vec![WOp::Send(11), WOp::Send(12)]] {
+            // main sends (spawning has no scheduling point: yield so that the children can wait)
+            let mut m = vec![GOp::Spawn(1), GOp::Op(WOp::Yield)];
+            m.extend(g(&mid));
+            m.extend([GOp::Op(WOp::Yield), GOp::Op(WOp::TriggerAll), GOp::Join(1), GOp::Op(WOp::ClearTriggers)]);
+            out.push(Program { cfg: WCfg { tx_threads: vec![0], rx_threads: vec![1] }, threads: vec![m, g(&r1)] });
+            if mid.len() == 1 {
+                // the sender is a task of its own
+                let m2 = vec![GOp::Spawn(1), GOp::Spawn(2), GOp::Op(WOp::Yield), GOp::Op(WOp::TriggerAll), GOp::Join(1), GOp::Join(2), GOp::Op(WOp::ClearTriggers)];
+                out.push(Program { cfg: WCfg { tx_threads: vec![2], rx_threads: vec![1] }, threads: vec![m2, g(&r1), g(&mid)] });
+            }
+            if thorough || (r1.len() == 2 && mid.len() == 1) {
+                // two receivers
+                let mut m3 = vec![GOp::Spawn(1), GOp::Spawn(2), GOp::Op(WOp::Yield)];
+                m3.extend(g(&mid));
+                m3.extend([GOp::Op(WOp::Yield), GOp::Op(WOp::TriggerAll), GOp::Join(1), GOp::Join(2), GOp::Op(WOp::ClearTriggers)]);
+                out.push(Program { cfg: WCfg { tx_threads: vec![0], rx_threads: vec![1, 2] }, threads: vec![m3, g(&r1), g(&[WOp::TimeoutChanged, WOp::BorrowAndUpdate])] });
+            }
+        }
+    }
+    // the only receiver is cancelled: afterwards `send` is refused, `is_closed`, `closed()` completes —
+    // and a sender waiting in `closed()` is woken by the victim's destructor
+    for v in &victims {
+        for after in [vec![WOp::Send(11)], vec![WOp::TxIsClosed, WOp::TxClosed], vec![WOp::SendReplace(11), WOp::TxBorrow]] {
+            let mut main = vec![GOp::Spawn(1), GOp::Abort(1), GOp::Join(1)];
+            main.extend(g(&after));
+            out.push(Program { cfg: WCfg { tx_threads: vec![0], rx_threads: vec![1] }, threads: vec![main, g(v)] });
+        }
+        for txw in [vec![WOp::TxClosed], vec![WOp::Send(11), WOp::TxClosed]] {
+            let main = vec![GOp::Spawn(1), GOp::Spawn(2), GOp::Abort(1), GOp::Join(1), GOp::Join(2)];
+            out.push(Program { cfg: WCfg { tx_threads: vec![2], rx_threads: vec![1] }, threads: vec![main.clone(), g(v), g(&txw)] });
+            if thorough {
+                // two senders waiting in closed()
+                let main3 = vec![GOp::Spawn(1), GOp::Spawn(2), GOp::Spawn(3), GOp::Abort(1), GOp::Join(1), GOp::Join(2), GOp::Join(3)];
+                out.push(Program { cfg: WCfg { tx_threads: vec![2, 3], rx_threads: vec![1] }, threads: vec![main3, g(v), g(&txw), g(&[WOp::TxClosed])] });
+            }
+        }
+    }
+    // a sender task cancelled inside closed(): its Sender is dropped — the last one closes the channel
+    // and wakes the receivers (from the victim's destructor), any other leaves the channel open
+    for rx in [vec![WOp::Changed], vec![WOp::Changed, WOp::Changed], vec![WOp::WaitFor(11)], vec![WOp::HasChanged, WOp::DropRx]] {
+        let main = vec![GOp::Spawn(1), GOp::Spawn(2), GOp::Abort(1), GOp::Join(1), GOp::Join(2)];
+        out.push(Program { cfg: WCfg { tx_threads: vec![1], rx_threads: vec![2] }, threads: vec![main, g(&[WOp::TxClosed]), g(&rx)] });
+        let mut main2 = vec![GOp::Spawn(1), GOp::Spawn(2), GOp::Abort(1), GOp::Join(1), GOp::Op(WOp::Send(11)), GOp::Op(WOp::DropTx), GOp::Join(2)];
+        out.push(Program { cfg: WCfg { tx_threads: vec![0, 1], rx_threads: vec![2] }, threads: vec![main2.clone(), g(&[WOp::TxClosed]), g(&rx)] });
+        if thorough {
+            // two receivers woken by the destructor
+            main2 = vec![GOp::Spawn(1), GOp::Spawn(2), GOp::Spawn(3), GOp::Abort(1), GOp::Join(1), GOp::Join(2), GOp::Join(3)];
+            out.push(Program { cfg: WCfg { tx_threads: vec![1], rx_threads: vec![2, 3] }, threads: vec![main2, g(&[WOp::TxClosed]), g(&rx), g(&[WOp::Changed])] });
         }
     }
     out.sort_by_key(|p| p.size());
